@@ -91,13 +91,15 @@ Definition aggregate_eval (r : option resolution) (origin : Z) (cells : list cel
   end.
 
 (* ------------------------------------------------------------------ _aggregate_period *)
-(* sorted(cells, key=coordinates): stable insertion sort by (period_start, period_end, evaluation_date) *)
+(* sorted(cells, key=coordinates): STABLE insertion sort by (period_start, period_end, evaluation_date):
+   an element is inserted before the first element that is not strictly smaller, so cells with equal
+   coordinates (restated cells) keep their input order, as Python's sorted does *)
 Definition coord_ltb (a b : cell) : bool :=
   (ps a <? ps b) || ((ps a =? ps b) && ((pe a <? pe b) || ((pe a =? pe b) && (ev a <? ev b)))).
 Fixpoint coord_insert (x : cell) (l : list cell) : list cell :=
   match l with
   | [] => [x]
-  | y :: t => if coord_ltb x y then x :: l else y :: coord_insert x t
+  | y :: t => if coord_ltb y x then y :: coord_insert x t else x :: l
   end.
 Definition sort_coords (l : list cell) : list cell := fold_right coord_insert [] l.
 
